@@ -17,7 +17,8 @@ EXPLANATION = ("D1 no stdout sink reachable from the export tool's main except o
 DECIDED = ["D1 nothing but the model goes to stdout (who-may-call)", "D2 the sanctioned site prints the model JSON and only it",
            "D3 failure implies no JSON and non-zero exit status", "D4 thor -o writes Model::as_json of the same conversion",
            "D5 the -o file is created/truncated and written by one write_all of the whole JSON",
-           "D6 the auxiliary files stay optional in collect_hulc_data (what find_kyg / find_tbl return is never unwrapped or turned into an error)"]
+           "D6 the auxiliary files stay optional in collect_hulc_data (what find_kyg / find_tbl return is never unwrapped or turned into an error)",
+           "D7 no exit of the tool's own code is control-dependent on a file-system question about an optional file (dominating conditions of every process::exit)"]
 UNDECIDED = ["exit status 0 on every convertible project (depends on absence of panics: C19/C14 inventories)",
              "byte equality of thor's file with hulc2model's stdout"]
 ASSUMPTIONS = ["external crates do not write to stdout (env_logger default target is stderr)",
